@@ -31,8 +31,8 @@ BUDGET = {"quick": 900, "thorough": 5400}
 CASE_TIMEOUT = 900
 
 O, U = 200000, 400
-CONTIG_ORDER = ["chr1", "chr2", "chr3", "chrUn_x", "chr6_x_alt"]  # as GenomicArray.sort orders them
-CANONICAL = {"chr1", "chr2", "chr3"}  # chrUn_x (unplaced) and chr6_x_alt (alternate) are not canonically named
+CONTIG_ORDER = ["chr1", "chr2", "chr3", "chr10", "chrM", "chrUn_x", "chr6_x_alt"]  # as GenomicArray.sort orders them
+CANONICAL = {"chr1", "chr2", "chr3", "chr10"}  # chrM (mitochondrial), chrUn_x (unplaced), chr6_x_alt (alternate) are not canonically named
 DEFAULT_TARGET_AVG = 200 / 0.75
 
 # (average, minimum); None = the default minimum; the statement's precondition is minimum <= average / 2
@@ -226,6 +226,10 @@ def cases(tier):
         for tl in TARGET_LAYOUTS:
             if t1 or TARGET_LAYOUTS[tl]:
                 yield {"check": "antitarget-contigs", "t": t1, "tlayout": tl}
+    # names whose *length* disagrees with the canonical-name rule: a short non-canonical one (chrM) and a canonical
+    # one longer than every targeted name (chr10), with a canonical and a non-canonical contig both targeted
+    for textra in ([("chrM", 1, 2)], [("chrUn_x", 1, 2)], [("chrM", 1, 2), ("chr2", 2, 4)]):
+        yield {"check": "antitarget-contigs", "t": ((3, 5),), "tlayout": "single", "textra": textra, "extras": NAMELEN_EXTRAS, "a1": [((-2, 12),)]}
     if t:
         dists = list(range(900, 2701))
     else:
@@ -575,15 +579,19 @@ def run_antitarget_sizes(case, ctx):
 ACCESS_EXTRAS = [("chr2", -2, 12), ("chrUn_x", -2, 8), ("chr3", 0, 6), ("chr6_x_alt", 0, 6)]
 
 
+NAMELEN_EXTRAS = [("chr10", 0, 6), ("chrM", -2, 8), ("chr3", 0, 6), ("chrUn_x", -2, 8), ("chr6_x_alt", 0, 6)]
+
+
 def run_antitarget_contigs(case, ctx):
-    trows = chr1_rows(case["t"]) + [(c, pos(s), pos(e)) for c, s, e in TARGET_LAYOUTS[case["tlayout"]]]
+    extras = [tuple(x) for x in case.get("extras") or ACCESS_EXTRAS]
+    trows = chr1_rows(case["t"]) + [(c, pos(s), pos(e)) for c, s, e in list(TARGET_LAYOUTS[case["tlayout"]]) + [tuple(x) for x in case.get("textra", [])]]
     tga, tfull = bait_table(trows)
     trows = [r[:3] for r in tfull]
     targeted = {r[0] for r in trows}
     tables = [None]
-    for a1 in ((), ((-2, 12),), ((-2, 4), (6, 12))):
-        for k in range(len(ACCESS_EXTRAS) + 1):
-            for extra in itertools.combinations(ACCESS_EXTRAS, k):
+    for a1 in [tuple(tuple(y) for y in x) for x in case.get("a1", [])] or ((), ((-2, 12),), ((-2, 4), (6, 12))):
+        for k in range(len(extras) + 1):
+            for extra in itertools.combinations(extras, k):
                 rows = chr1_rows(a1) + [(c, pos(s), pos(e)) for c, s, e in extra]
                 if rows and targeted & {r[0] for r in rows}:
                     tables.append(sort_rows(rows))
@@ -595,6 +603,8 @@ def run_antitarget_contigs(case, ctx):
             names = {r[0] for r in arows}
             for c in sorted(names - targeted):
                 ctx.stratum("contig-untargeted-canonical-binned" if c in CANONICAL else "contig-untargeted-noncanonical-skipped")
+                if (len(c) > max(map(len, targeted))) != (c not in CANONICAL) and (targeted & CANONICAL) and (targeted - CANONICAL):
+                    ctx.stratum("contig-name-length-disagrees-with-canonical-rule/mixed-targets")
             for c in sorted(names & targeted):
                 if c not in CANONICAL:
                     ctx.stratum("contig-noncanonical-targeted-binned")
